@@ -136,6 +136,48 @@ class Ctx:
                 raise Fail("coqchk rejected %s: %s" % (mod, tail))
         return names
 
+    def check_genlink(self, gen_cmd, gen_name, link_name, key):
+        """Regenerate a Gallina file from /repo's CURRENT source with a translator, compile it and the committed link
+        file (coq/GenLink/<link_name>.v: generated definitions = the model's + the theorems restated for them).
+        gen_cmd(outpath) -> argv of the translator.  Returns the list of theorem records; raises Fail when the
+        translator refuses the source or a proof obligation no longer checks."""
+        self.build_coq()
+        gdir = os.path.join(self.tmp, "GoparGen")
+        os.makedirs(gdir, exist_ok=True)
+        gen = os.path.join(gdir, gen_name + ".v")
+        p = sh(gen_cmd(gen), check=False, timeout=600)
+        if p.returncode != 0:
+            raise Fail("translator refused the current source (%s): %s" % (gen_name, p.stdout[-600:]))
+        bad = [l for l in open(gen) if FORBIDDEN.search(re.sub(r"\(\*.*?\*\)", "", l))]
+        if bad:
+            raise Fail("forbidden construct in generated file: " + bad[0][:100])
+        link_src = os.path.join(COQ, "GenLink", link_name + ".v")
+        link = os.path.join(gdir, link_name + ".v")
+        shutil.copy(link_src, link)
+        base = ["coqc", "-Q", COQ, "Gopar", "-Q", gdir, "GoparGen"]
+        p = sh(base + [gen], cwd=gdir, check=False, timeout=1200)
+        if p.returncode != 0:
+            raise Fail("generated file %s.v does not compile: %s" % (gen_name, p.stdout[-800:]))
+        p = sh(base + [link], cwd=gdir, check=False, timeout=1800)
+        if p.returncode != 0:
+            raise Fail("proof obligation of GenLink/%s.v no longer checks against the regenerated %s.v (the source changed): %s"
+                       % (link_name, gen_name, p.stdout[-1200:]))
+        src = open(link_src).read()
+        thms = re.findall(r"^\s*(?:Theorem|Corollary)\s+(\w+)", src, re.M)
+        blocks = parse_assumptions(p.stdout)
+        recs = [{"name": t, "file": "GenLink/%s.v (against %s.v regenerated from the source this run)" % (link_name, gen_name),
+                 "assumptions": blocks[i] if i < len(blocks) else ["<not printed>"]} for i, t in enumerate(thms)]
+        required = json.load(open(os.path.join(COQ, "Props", "REQUIRED.json"))).get(key, [])
+        have = {t["name"] for t in recs if t["assumptions"] != ["<not printed>"]}
+        missing = [t for t in required if t not in have]
+        if missing or not required:
+            raise Fail("theorems no longer stated/checked in GenLink/%s.v: %s" % (link_name, ", ".join(missing) or "(none registered)"))
+        self.theorems = list(self.theorems) + recs
+        self.coverage.setdefault("regenerated_from_source", []).append(
+            {"translator": " ".join(os.path.relpath(x, VERIF) if x.startswith(VERIF) else x for x in gen_cmd("<out>")),
+             "generated_sha256": sha(open(gen, "rb").read()), "link": "coq/GenLink/%s.v" % link_name, "theorems": thms})
+        return recs
+
     def build_model(self):
         model = os.path.join(OCAML, "model")
         srcs = [os.path.join(dp, f) for dp, _, fs in os.walk(COQ) for f in fs
